@@ -74,6 +74,8 @@ def jobs(tier):
         out.append(("subset.%s" % "+".join(pr), "job_subset", dict(opts=pr, mv="1" if i % 2 else "3")))
     out.append(("subset.all.v1", "job_subset", dict(opts=[o for o in names if o != "meta-version"], mv="1")))
     out.append(("subset.all.v2", "job_subset", dict(opts=[o for o in names if o not in ("meta-version", "align")], mv="2")))
+    for mv in ("1", "3"):
+        out.append(("default-config-files.v%s" % mv, "job_default_config", dict(mv=mv, default_cfg=True)))
     for mv in ("1", "2"):
         out.append(("config-rewritten-between-creates.v%s" % mv, "job_config_twice", dict(mv=mv, twice=True)))
     import itertools
@@ -411,13 +413,51 @@ def job_config_twice(E, mv, twice=True, _mutants=None):
         E.witnesses.setdefault(k_, True)
 
 
+def _swallow_vals(nvals):
+    """Legal addresses in non-canonical spellings (upper-case scheme, empty query / fragment, odd schemes): every route
+    must store them verbatim."""
+    pool = {"announce": ["HTTP://Tracker.Example/Announce.PHP?", "udp://t.example:6969/announce#"],
+            "web-seed": ["FTP://mirror.example/pub/", "http://w.example/seed.php?x=%2F&y=a+b#"],
+            "http-seed": ["HTTPS://H.example:443/seed.php#", "http://h.example/%7Euser/?"]}
+    return {k: v[:nvals] for k, v in pool.items()}
+
+
+def job_default_config(E, mv, default_cfg=True, _mutants=None):
+    """--config without --config-path while two of the documented default locations hold a file: the one in the
+    working directory is the configuration (documented search order), so the metafile equals the keyword route with
+    that file's values."""
+    fs, s = mkfs(E)
+    here = {"comment": OStr("cwd.comment", nonempty=True), "private": "true", "piece-length": "15"}
+    home = {"comment": OStr("home.comment", nonempty=True), "source": OStr("home.source", nonempty=True), "piece-length": "16"}
+    fs.add_token("/work/torrentfile.ini", ("INI", {"config": here}))
+    fs.add_token(fs.home + "/.torrentfile/torrentfile.ini", ("INI", {"config": home}))
+    fs.add_token(fs.home + "/.config/.torrentfile/torrentfile.ini", ("INI", {"config": {"comment": OStr("home2.comment", nonempty=True)}}))
+    w = World(fs, mutants=_mutants)
+    try:
+        got = w.mod("cli").execute(["create", "--prog", "0", "--meta-version", mv, "--config", "-o", "/out/x.torrent", "/data/name"]).meta
+        T = World(fs.clone(), mutants=_mutants).mod("torrent")
+        kw = dict(path="/data/name", outfile="/out/k.torrent", meta_version=mv, progress=0, comment=here["comment"], private=True, piece_length="15")
+        want = (T.TorrentFile(**kw) if mv == "1" else T.TorrentAssembler(**kw)).meta
+    except Unsupported:
+        raise
+    except SystemExit as ex:
+        E.fail("C20.default-config.parser-accepts", str(ex))
+        return
+    except Exception as ex:  # noqa: BLE001
+        E.fail("C20.default-config.no-exception", "%s: %s" % (type(ex).__name__, ex))
+        return
+    E.check(ben_equal(strip(got), strip(want), ordered=False), "C20.default-config.cwd-file-wins",
+            "--config with ./torrentfile.ini and ~/.torrentfile/torrentfile.ini present gives %s, the working directory's file means %s" % (_brief(got), _brief(want)))
+    for k_ in WITNESSES:
+        E.witnesses.setdefault(k_, True)
+
+
 def job_swallow(E, order, nvals, _mutants=None):
     """List-valued flags placed before the positional content path swallow it; the
     metafile must equal the one from the keyword route."""
     fs, s = mkfs(E)
     w = World(fs, mutants=_mutants)
-    vals = {"announce": ["http://t/%d" % i for i in range(nvals)], "web-seed": ["http://w/%d" % i for i in range(nvals)],
-            "http-seed": ["http://h/%d" % i for i in range(nvals)]}
+    vals = _swallow_vals(nvals)
     argv = ["create", "-o", "/out/x.torrent", "--prog", "0"]
     for o in order:
         argv += [OPTIONS[o][0]] + vals[o]
@@ -533,7 +573,7 @@ def replay(params, model, notes, workdir, seed):
     old = os.getcwd()
     os.chdir(workdir)
     try:
-        if "opt" not in params and "order" not in params and not params.get("twice"):
+        if "opt" not in params and "order" not in params and not params.get("twice") and not params.get("default_cfg") and "opts" not in params:
             mv = params["mv"]
             root = os.path.join(workdir, "payload", "name")
             ms = {}
@@ -560,6 +600,25 @@ def replay(params, model, notes, workdir, seed):
                 except BaseException as ex:  # noqa: BLE001
                     return ["C20.out-inside.no-exception: %r" % (ex,)]
             return [("C20.out-inside.%s-equals-keyword" % r) for r in ("flag", "config") if ms[r] != ms["keyword"]]
+        if params.get("default_cfg"):
+            mv = params["mv"]
+            home = os.environ["HOME"]
+            os.makedirs(os.path.join(home, ".torrentfile"), exist_ok=True)
+            os.makedirs(os.path.join(home, ".config", ".torrentfile"), exist_ok=True)
+            with open(os.path.join(workdir, "torrentfile.ini"), "w") as f:
+                f.write("[config]\ncomment = cwd comment\nprivate = true\npiece-length = 15\n")
+            with open(os.path.join(home, ".torrentfile", "torrentfile.ini"), "w") as f:
+                f.write("[config]\ncomment = home comment\nsource = home source\npiece-length = 16\n")
+            with open(os.path.join(home, ".config", ".torrentfile", "torrentfile.ini"), "w") as f:
+                f.write("[config]\ncomment = home2 comment\n")
+            try:
+                got = run_cli(["create", "--prog", "0", "--meta-version", mv, "--config", "-o", os.path.join(out, "x.torrent"), data]).meta
+                kw = dict(path=data, outfile=os.path.join(out, "k.torrent"), meta_version=mv, progress=0, comment="cwd comment", private=True, piece_length="15")
+                with contextlib.redirect_stdout(io.StringIO()):
+                    want = (T.TorrentFile(**kw) if mv == "1" else T.TorrentAssembler(**kw)).meta
+            except BaseException as ex:  # noqa: BLE001
+                return ["C20.default-config.no-exception: %r" % (ex,)]
+            return [] if norm(got) == norm(want) else ["C20.default-config.cwd-file-wins"]
         if "opts" in params:
             return _replay_subset(params, model, workdir, data, out, T, run_cli, norm)
         if params.get("twice"):
@@ -581,8 +640,7 @@ def replay(params, model, notes, workdir, seed):
             return [] if norm(got) == norm(want) else ["C20.config-twice.second-equals-keyword"]
         if "order" in params:
             nvals = params["nvals"]
-            vals = {"announce": ["http://t/%d" % i for i in range(nvals)], "web-seed": ["http://w/%d" % i for i in range(nvals)],
-                    "http-seed": ["http://h/%d" % i for i in range(nvals)]}
+            vals = _swallow_vals(nvals)
             argv = ["create", "-o", os.path.join(out, "x.torrent"), "--prog", "0"]
             for o in params["order"]:
                 argv += [OPTIONS[o][0]] + vals[o]
